@@ -85,7 +85,7 @@ Definition sp_step (s : sst) (o : op) : sst :=
       | O => s
       | _ => SSt (sp_rows s) (delete t (sp_txs s))
       end
-  | Reopen => SSt (sp_rows s) ∅
+  | Reopen | ReopenFault _ => SSt (sp_rows s) ∅
   | Repl b => SSt (apply_batch b (sp_rows s)) (sp_txs s)
   end.
 
